@@ -39,6 +39,8 @@ pub struct Scenario {
     pub name: String,
     pub cfg: Arc<WorldCfg>,
     pub prelude: Vec<Op>,
+    /// fixed long histories that are stepped through once with every oracle (beyond the depth the BFS reaches)
+    pub scripts: Vec<(String, Vec<Op>)>,
     pub alphabet: Vec<Op>,
     pub depth: usize,
     pub vols: Vec<VolCtx>,
@@ -82,6 +84,7 @@ impl Scenario {
             name: name.to_string(),
             cfg,
             prelude,
+            scripts: Vec::new(),
             alphabet,
             depth,
             vols,
